@@ -115,6 +115,12 @@ func errorPaths(c *Ctx, r *Repo, rule string, p *packages.Package, fd *ast.FuncD
 				continue
 			}
 			key := fk + "|" + seen.Expr
+			for _, owner := range ownerChain(p, fd) {
+				if _, ok := allowed[owner+"|"+seen.Expr]; ok {
+					key = owner + "|" + seen.Expr
+					break
+				}
+			}
 			if why, ok := allowed[key]; ok {
 				c.OK(rule, key, r.Pos(seen.Pos), "allowed fallback: "+why)
 				continue
